@@ -173,9 +173,9 @@ func c12Sequential(c *explore.Ctx) {
 		depth     int
 		fixed     string
 	}
-	spaces := []sp{{"E", "ROLL", 3, ""}, {"S2", "ROLL", 2, ""}, {"S2", "ROLL1", 2, ""}, {"EM2", "ROLL", 3, "bak"}}
+	spaces := []sp{{"E", "ROLL", 3, ""}, {"S2", "ROLL", 2, ""}, {"S2", "ROLL1", 2, ""}, {"EM2", "ROLL", 3, "bak"}, {"S2", "ROLL", 4, "bak"}, {"E", "ROLL1", 4, "bak"}}
 	if c.Thorough() {
-		spaces = []sp{{"E", "ROLL", 5, ""}, {"S2", "ROLL", 4, ""}, {"S2", "ROLL1", 3, ""}, {"EM2", "ROLL", 5, "bak"}, {"E", "ROLL1", 4, ""}, {"S4", "ROLL", 3, ""}}
+		spaces = []sp{{"E", "ROLL", 5, ""}, {"S2", "ROLL", 4, ""}, {"S2", "ROLL1", 3, ""}, {"EM2", "ROLL", 5, "bak"}, {"E", "ROLL1", 4, ""}, {"S4", "ROLL", 3, ""}, {"S2", "ROLL", 4, "bak"}, {"E", "ROLL1", 5, "bak"}, {"S2", "ROLL1", 3, "bak"}}
 	}
 	for _, x := range spaces {
 		if c.Expired() || c.NViolations() > 0 {
@@ -240,7 +240,80 @@ func c12Sequential(c *explore.Ctx) {
 	}
 }
 
+// c12FailedBackup: "the source database is not affected by the backup" - also not by one that fails. A transient
+// I/O error is injected at each mutating file-system call of Backup; afterwards the source must be fully usable:
+// Compact is not refused, a Put works, a second Backup succeeds and opens to exactly the model.
+func c12FailedBackup(c *explore.Ctx) {
+	for _, bc := range [][2]string{{"S2", "ROLL"}, {"S3", "ROLL"}, {"E", "ROLL"}} {
+		if !c.Mine() {
+			continue
+		}
+		base, err := explore.GetBase(bc[0], cfgByName(bc[1]), 0)
+		if err != nil {
+			c.HarnessError("%v", err)
+		}
+		explore.PinSeed(0)
+		for n := 1; n < 100; n++ {
+			if c.Expired() || c.NViolations() > 0 {
+				return
+			}
+			s := base.NewSess()
+			mk := func(msg string) {
+				c.Violation(explore.Violation{Key: fmt.Sprintf("failed-backup base=%s cfg=%s fault@%d", bc[0], bc[1], n),
+					What: fmt.Sprintf("base %s/%s: Backup with a transient I/O error at its mutating file-system call #%d, then: %s", bc[0], bc[1], n, msg), Size: n,
+					Replay: map[string]interface{}{"kind": "failbackup12", "base": bc[0], "cfg": bc[1], "fault_at": n, "observed": msg}})
+			}
+			if err := s.OpenDB(); err != nil {
+				mk("Open: " + err.Error())
+				return
+			}
+			before := s.FS.Mutations()
+			s.FS.FailAt = before + n
+			berr := s.Apply(explore.Op{Kind: explore.Backup})
+			s.FS.FailAt = 0
+			if s.FS.Mutations() < before+n {
+				_ = s.ProtectedClose()
+				break
+			}
+			c.Add("executions", 1)
+			c.Add("failed_backup_probes", 1)
+			c.Add("transitions", 5)
+			_ = berr
+			bad := ""
+			if err := s.Apply(explore.Op{Kind: explore.Compact}); err != nil {
+				bad = "Compact returned error: " + err.Error()
+			} else if err := s.Apply(explore.Op{Kind: explore.Put, Key: "a"}); err != nil {
+				bad = "Put returned error: " + err.Error()
+			} else if err := s.Apply(explore.Op{Kind: explore.Backup}); err != nil {
+				bad = "a second Backup returned error: " + err.Error()
+			} else if msg := s.Check(); msg != "" {
+				bad = "the source database: " + msg
+			} else {
+				rec := explore.RecoverImage(s.FS.SubImage(s.LastBackup, explore.DBPath), base.Cfg, base.Keys, base.Probe, base.Seed, explore.RecoverOpts{})
+				switch {
+				case rec.OpenErr != "":
+					bad = "the second backup does not open: " + rec.OpenErr
+				case rec.Internal != "" || !s.Model.Equal(rec.Contents):
+					bad = "the second backup does not hold the contents of the source: " + rec.Internal + " " + s.Model.Diff(rec.Contents, s.KeyName)
+				}
+			}
+			if s.Panicked != "" {
+				bad = s.Panicked
+			}
+			_ = s.ProtectedClose()
+			if bad != "" {
+				mk(bad)
+				return
+			}
+		}
+	}
+}
+
 func runC12(c *explore.Ctx) {
+	c12FailedBackup(c)
+	if c.Expired() || c.NViolations() > 0 {
+		return
+	}
 	c12Sequential(c)
 	if c.Expired() || c.NViolations() > 0 {
 		return
